@@ -415,14 +415,14 @@ fn replay_stream_one(rp: &Rp, hay: &[u8]) -> i32 {
         idx: usize,
         calls: usize,
         fail_at: Option<usize>,
-        failed: bool,
+        failed: std::rc::Rc<std::cell::Cell<bool>>,
     }
     impl<'a> std::io::Read for Sched<'a> {
         fn read(&mut self, buf: &mut [u8]) -> std::io::Result<usize> {
             let call = self.calls;
             self.calls += 1;
             if Some(call) == self.fail_at {
-                self.failed = true;
+                self.failed.set(true);
                 return Err(std::io::Error::new(std::io::ErrorKind::Other, "injected"));
             }
             let remaining = self.data.len() - self.pos;
@@ -489,7 +489,8 @@ fn replay_stream_one(rp: &Rp, hay: &[u8]) -> i32 {
         let faults: Vec<Option<usize>> = if fault { std::iter::once(None).chain((0..=sizes.len() + 1).map(Some)).collect() } else { vec![None] };
         for fa in faults.iter().copied() {
             // ---- stream search (the iterator is driven past an error item: the reader fails once)
-            let rdr = Sched { data: hay, pos: 0, sizes: sizes.clone(), idx: 0, calls: 0, fail_at: fa, failed: false };
+            let rfailed = std::rc::Rc::new(std::cell::Cell::new(false));
+            let rdr = Sched { data: hay, pos: 0, sizes: sizes.clone(), idx: 0, calls: 0, fail_at: fa, failed: rfailed.clone() };
             let r = std::panic::catch_unwind(std::panic::AssertUnwindSafe(|| {
                 let mut got: Vec<M> = vec![];
                 let mut before_err: Option<Vec<M>> = None;
@@ -522,6 +523,9 @@ fn replay_stream_one(rp: &Rp, hay: &[u8]) -> i32 {
                     if fa.is_none() && errs > 0 {
                         bad.push("error item without a reader failure".into());
                     }
+                    if rfailed.get() && errs == 0 {
+                        bad.push(format!("the reader failed at call {:?} but the stream search yielded no error item (reads {:?}): matches {:?}", fa, sizes, got));
+                    }
                     if got != want {
                         bad.push(format!("stream matches {:?} != in-memory {:?} (reads {:?}, reader fault at call {:?}{})", got, want, sizes, fa,
                             if fa.is_some() { ", iteration resumed after the error item" } else { "" }));
@@ -531,7 +535,8 @@ fn replay_stream_one(rp: &Rp, hay: &[u8]) -> i32 {
             // ---- stream replacement, writer failing at every call (or never)
             let nw = if fault { want_out.len() + 3 } else { 0 };
             for wf in std::iter::once(None).chain((0..nw).map(Some)) {
-                let rdr = Sched { data: hay, pos: 0, sizes: sizes.clone(), idx: 0, calls: 0, fail_at: fa, failed: false };
+                let rfailed2 = std::rc::Rc::new(std::cell::Cell::new(false));
+                let rdr = Sched { data: hay, pos: 0, sizes: sizes.clone(), idx: 0, calls: 0, fail_at: fa, failed: rfailed2.clone() };
                 let mut wtr = Rec { out: vec![], calls: 0, fail_at: wf, failed: false };
                 let mut handed_ok = true;
                 let r = std::panic::catch_unwind(std::panic::AssertUnwindSafe(|| {
@@ -552,6 +557,9 @@ fn replay_stream_one(rp: &Rp, hay: &[u8]) -> i32 {
                         }
                         if wtr.failed && ok {
                             bad.push(format!("writer failure at call {:?} not reported (reads {:?})", wf, sizes));
+                        }
+                        if rfailed2.get() && ok {
+                            bad.push(format!("the reader failed at call {:?} but stream replacement returned Ok (reads {:?})", fa, sizes));
                         }
                         if fa.is_none() && !wtr.failed && !ok {
                             bad.push(format!("stream replacement failed without a fault (reads {:?})", sizes));
